@@ -543,53 +543,21 @@ func parseOrdered(stmt string) *orderedQuery {
 // c11Order: the "first"/"last" accessors of the L1 info tree store mean first/last in chain order.
 func c11Order(c *core.Ctx) {
 	const rule = "C11-order"
-	for _, w := range []struct {
-		fn, table, dir string
-		where          []string
-	}{
-		{"GetLatestInfoUntilBlock", "L1INFO_LEAF", "DESC", []string{"BLOCK_NUM <= $1"}},
-		{"getLastIndex", "L1INFO_LEAF", "DESC", nil},
-		{"GetLastInfo", "L1INFO_LEAF", "DESC", nil},
-		{"GetFirstInfo", "L1INFO_LEAF", "ASC", nil},
-		{"GetFirstInfoAfterBlock", "L1INFO_LEAF", "ASC", []string{"BLOCK_NUM >= $1"}},
-		{"GetFirstL1InfoWithRollupExitRoot", "L1INFO_LEAF", "ASC", []string{"ROLLUP_EXIT_ROOT = $1"}},
-		{"GetLastVerifiedBatches", "VERIFY_BATCHES", "DESC", []string{"ROLLUP_ID = $1"}},
-		{"GetFirstVerifiedBatches", "VERIFY_BATCHES", "ASC", []string{"ROLLUP_ID = $1"}},
-		{"GetFirstVerifiedBatchesAfterBlock", "VERIFY_BATCHES", "ASC", []string{"BLOCK_NUM >= $2", "ROLLUP_ID = $1"}},
-	} {
-		fn := c.MustFn(rule, "l1infotreesync", "processor", w.fn)
-		if fn == nil {
-			continue
-		}
-		var stmts []string
-		core.Instrs(fn, func(i ssa.Instruction) {
-			for _, op := range i.Operands(nil) {
-				if op == nil || *op == nil {
-					continue
-				}
-				if s, ok := core.ConstString(*op); ok && strings.Contains(strings.ToUpper(s), "ORDER BY") && strings.Contains(strings.ToUpper(s), w.table) {
-					stmts = append(stmts, s)
-				}
-			}
-		})
-		label := "l1infotreesync.(*processor)." + w.fn + "#chain-order"
-		if len(stmts) != 1 {
-			c.Violate(rule, label, fn.Pos(), fmt.Sprintf("expected one ordered statement over %s, found %d", w.table, len(stmts)))
-			continue
-		}
-		q := parseOrdered(stmts[0])
-		ok := q != nil && q.table == w.table && q.limit == "1" && fmt.Sprint(q.where) == fmt.Sprint(w.where)
-		if ok {
-			// chain order: (block_num, block_pos); for the leaf table the leaf index alone is equivalent (C11-index)
-			pair := len(q.keys) == 2 && q.keys[0] == "BLOCK_NUM" && q.keys[1] == "BLOCK_POS"
-			pos := w.table == "L1INFO_LEAF" && len(q.keys) == 1 && q.keys[0] == "POSITION"
-			ok = pair || pos
-			for _, d := range q.dirs {
-				ok = ok && d == w.dir
-			}
-		}
-		c.Decide(ok, rule, label, fn.Pos(), fmt.Sprintf("%s row in chain order among %v: %+v", map[string]string{"DESC": "last", "ASC": "first"}[w.dir], w.where, q))
-	}
+	// chain order: (block_num, block_pos); for the leaf table the leaf index alone is equivalent (C11-index)
+	leaf := [][]string{{"BLOCK_NUM", "BLOCK_POS"}, {"POSITION"}}
+	vb := [][]string{{"BLOCK_NUM", "BLOCK_POS"}}
+	p := "l1infotreesync"
+	checkOrdered(c, rule, []orderedSpec{
+		{p, "processor", "GetLatestInfoUntilBlock", "L1INFO_LEAF", "DESC", []string{"BLOCK_NUM <= $1"}, leaf},
+		{p, "processor", "getLastIndex", "L1INFO_LEAF", "DESC", nil, leaf},
+		{p, "processor", "GetLastInfo", "L1INFO_LEAF", "DESC", nil, leaf},
+		{p, "processor", "GetFirstInfo", "L1INFO_LEAF", "ASC", nil, leaf},
+		{p, "processor", "GetFirstInfoAfterBlock", "L1INFO_LEAF", "ASC", []string{"BLOCK_NUM >= $1"}, leaf},
+		{p, "processor", "GetFirstL1InfoWithRollupExitRoot", "L1INFO_LEAF", "ASC", []string{"ROLLUP_EXIT_ROOT = $1"}, leaf},
+		{p, "processor", "GetLastVerifiedBatches", "VERIFY_BATCHES", "DESC", []string{"ROLLUP_ID = $1"}, vb},
+		{p, "processor", "GetFirstVerifiedBatches", "VERIFY_BATCHES", "ASC", []string{"ROLLUP_ID = $1"}, vb},
+		{p, "processor", "GetFirstVerifiedBatchesAfterBlock", "VERIFY_BATCHES", "ASC", []string{"BLOCK_NUM >= $2", "ROLLUP_ID = $1"}, vb},
+	})
 }
 
 func init() {
